@@ -643,6 +643,34 @@ var c14Catalogue = []c14ColSpec{
 		return proto.NewArray[[][]uint64](proto.NewArray[[]uint64](new(proto.ColUInt64).Array()))
 	}},
 	{mk: func() proto.Column { return proto.NewArray[[]string](new(proto.ColStr).LowCardinality().Array()) }},
+	// tuples with adopting elements: as typed targets they take their own type since the C18y repair (ColTuple.Infer
+	// hands element i the i-th argument of Tuple(...), ColNamed.Infer strips its name); before it they rejected it
+	{mk: func() proto.Column {
+		return proto.ColTuple{new(proto.ColStr), new(proto.ColDateTime64).WithPrecision(proto.PrecisionMilli)}
+	}},
+	{mk: func() proto.Column {
+		e := new(proto.ColEnum)
+		_ = e.Infer("Enum8('a' = 1, 'b' = 2)")
+		return proto.ColTuple{e, (&proto.ColDateTime{Location: time.UTC}).Nullable()}
+	}, strPool: []string{"a", "b"}},
+	{mk: func() proto.Column {
+		e := new(proto.ColEnum)
+		_ = e.Infer("Enum16('x' = 1000, 'y' = -5, 'z' = 7)")
+		return proto.ColTuple{
+			proto.Named[string](new(proto.ColStr), "s"),
+			proto.Named[string](e, "e"),
+			proto.Named[time.Time](new(proto.ColDateTime64).WithPrecision(proto.PrecisionMicro).WithLocation(time.UTC), "t"),
+		}
+	}, strPool: []string{"x", "y", "z"}},
+	{mk: func() proto.Column {
+		e := new(proto.ColEnum)
+		_ = e.Infer("Enum8('a' = 1, 'b' = 2)")
+		return proto.ColTuple{
+			new(proto.ColStr),
+			proto.ColTuple{e, new(proto.ColDateTime64).WithPrecision(proto.PrecisionNano).WithLocation(time.UTC).Array()},
+			new(proto.ColUInt8),
+		}
+	}, strPool: []string{"a", "b"}},
 }
 
 func (s c14ColSpec) name() string {
